@@ -585,6 +585,19 @@ func c08R5(p *core.Program, r *core.Report) {
 				}
 				return true
 			})
+			// ... or becomes Data right here: &File{..., Data: <map>}
+			inLit := false
+			ast.Inspect(rd.Body, func(n ast.Node) bool {
+				if kv, ok := n.(*ast.KeyValueExpr); ok {
+					if id, ok := kv.Key.(*ast.Ident); ok && id.Name == "Data" && core.VarOf(linfo, kv.Value) == v {
+						inLit = true
+					}
+				}
+				return true
+			})
+			if inLit {
+				return true
+			}
 			if !returned || rd.Obj() == nil {
 				return false
 			}
